@@ -95,7 +95,17 @@ pub fn draw(rng: &mut StdRng, item: &Value, uniq: &mut HashMap<String, HashSet<S
         // bare text (delimited by the surrounding literals); `excl` lists the characters it must avoid
         "text" => {
             let min = item["min"].as_u64().unwrap_or(0) as usize;
-            let s = draw_text(rng, item, uniq, &excl, min, 24);
+            let mut excl = excl.clone();
+            if let Some(cps) = item["exclcp"].as_array() {
+                excl.extend(cps.iter().filter_map(|c| char::from_u32(c.as_u64().unwrap() as u32)));
+            }
+            let mut s = draw_text(rng, item, uniq, &excl, min, 24);
+            if let Some(need) = item["need"].as_str().filter(|n| !n.is_empty()) {
+                // the sub-case wants this character inside the text (not at its ends)
+                let mid: Vec<char> = s.chars().collect();
+                let at = mid.len() / 2;
+                s = mid[.. at].iter().collect::<String>() + "a" + need + "b" + &mid[at ..].iter().collect::<String>();
+            }
             (json!(s), s.as_bytes().to_vec())
         }
         // ASCII-only bare text
@@ -146,8 +156,141 @@ pub fn draw(rng: &mut StdRng, item: &Value, uniq: &mut HashMap<String, HashSet<S
             };
             (v, txt.into_bytes())
         }
+        "u32le_nz" => {
+            let v = (boundary_u64(rng, u32::MAX as u64) as u32).max(1);
+            (json!(v), v.to_le_bytes().to_vec())
+        }
+        // one of a list of literal texts
+        "oneoftext" => {
+            let opts = item["opts"].as_array().expect("oneoftext opts");
+            let s = opts[rng.gen_range(0 .. opts.len())].as_str().unwrap().to_string();
+            (json!(s), s.as_bytes().to_vec())
+        }
+        // Unreal 2 string: length byte, Latin-1 or UCS-2LE, colour escapes / control characters per `atoms`
+        "ustr" => draw_ustr(rng, item, uniq),
         other => panic!("layout type {other} is not a primitive of the harness"),
     }
+}
+
+fn latin1_char(rng: &mut StdRng) -> char {
+    // printable characters that Latin-1 and Windows-1252 agree on
+    match rng.gen_range(0 .. 10) {
+        0 ..= 6 => rng.gen_range(0x20u8 ..= 0x7e) as char,
+        _ => char::from_u32(rng.gen_range(0xa0u32 ..= 0xff)).unwrap(),
+    }
+}
+
+fn ucs2_char(rng: &mut StdRng) -> char {
+    loop {
+        let c = match rng.gen_range(0 .. 10) {
+            0 ..= 4 => rng.gen_range(0x20u32 ..= 0x7e),
+            5 ..= 6 => rng.gen_range(0xa0u32 ..= 0x24ff),
+            _ => rng.gen_range(0x3000u32 ..= 0xd7ff),
+        };
+        // D9: the low byte of the first unit must not look like the documented stray 01; keep it simple: no
+        // unit with low byte 01 at all, no escape / control code points
+        if c & 0xff != 0x01 && c > 0x1b {
+            if let Some(ch) = char::from_u32(c) {
+                break ch;
+            }
+        }
+    }
+}
+
+/// Encode an Unreal 2 string from its stripped text and the positions of escapes / control characters.
+pub fn ustr_encode(rng: &mut StdRng, enc: &str, atoms: &[String], chars: &[char]) -> Vec<u8> {
+    let mut ci = 0;
+    if enc == "latin1" {
+        let mut body: Vec<u8> = Vec::new();
+        for a in atoms {
+            match a.as_str() {
+                "ch" => {
+                    body.push(chars[ci] as u32 as u8);
+                    ci += 1;
+                }
+                "esc" => {
+                    body.push(0x1b);
+                    for _ in 0 .. 3 {
+                        body.push(rng.gen_range(1 ..= 255));
+                    }
+                }
+                _ => body.push(rng.gen_range(1 ..= 0x1a)),
+            }
+        }
+        // the length counts the bytes including the terminating NUL (0 = nothing follows)
+        if atoms.is_empty() && rng.gen_bool(0.5) {
+            return vec![0];
+        }
+        body.push(0);
+        assert!(body.len() < 0x80, "latin1 string too long for the length byte");
+        let mut out = vec![body.len() as u8];
+        out.extend(body);
+        out
+    } else {
+        let mut units: Vec<u16> = Vec::new();
+        for a in atoms {
+            match a.as_str() {
+                "ch" => {
+                    let mut b = [0u16; 2];
+                    units.extend_from_slice(chars[ci].encode_utf16(&mut b));
+                    ci += 1;
+                }
+                "esc" => {
+                    units.push(0x1b);
+                    for _ in 0 .. 3 {
+                        units.push(rng.gen_range(0x20 ..= 0xff));
+                    }
+                }
+                _ => units.push(rng.gen_range(2 ..= 0x1a)),
+            }
+        }
+        units.push(0);
+        assert!(units.len() < 0x80, "ucs2 string too long for the length byte");
+        let mut out = vec![0x80 | units.len() as u8];
+        for u in units {
+            out.extend(u.to_le_bytes());
+        }
+        out
+    }
+}
+
+fn draw_ustr(rng: &mut StdRng, item: &Value, uniq: &mut HashMap<String, HashSet<String>>) -> (Value, Vec<u8>) {
+    let mut enc = item["enc"].as_str().unwrap_or("any").to_string();
+    let mut atoms: Vec<String> = item["atoms"]
+        .as_array()
+        .map(|a| a.iter().map(|x| x.as_str().unwrap().to_string()).collect())
+        .unwrap_or_default();
+    let any = enc == "any";
+    if any {
+        enc = if rng.gen_bool(0.7) { "latin1".into() } else { "ucs2".into() };
+    }
+    // escapes take 4 code units, so the number of atoms that fit is bounded by the length byte
+    let units: usize = atoms.iter().map(|a| if a == "esc" { 4 } else { 1 }).sum();
+    if units + 1 >= 0x80 {
+        // drop trailing ordinary characters until it fits (the spec's length is the atom count)
+        while atoms.iter().map(|a| if a == "esc" { 4 } else { 1 }).sum::<usize>() + 1 >= 0x80 {
+            let pos = atoms.iter().rposition(|a| a == "ch").expect("string too long");
+            atoms.remove(pos);
+        }
+    }
+    for _ in 0 .. 1000 {
+        if any {
+            let min = item["min"].as_u64().unwrap_or(0) as usize;
+            let n = rng.gen_range(min ..= 20);
+            atoms = vec!["ch".to_string(); n];
+        }
+        let n = atoms.iter().filter(|a| *a == "ch").count();
+        let chars: Vec<char> = (0 .. n)
+            .map(|_| if enc == "latin1" { latin1_char(rng) } else { ucs2_char(rng) })
+            .collect();
+        let s: String = chars.iter().collect();
+        if !check_uniq(item, uniq, &s) {
+            continue;
+        }
+        let bytes = ustr_encode(rng, &enc, &atoms, &chars);
+        return (json!(s), bytes);
+    }
+    panic!("could not draw a unique ustr");
 }
 
 fn check_uniq(item: &Value, uniq: &mut HashMap<String, HashSet<String>>, s: &str) -> bool {
@@ -194,6 +337,7 @@ pub fn encode(rng: &mut StdRng, items: &[Value], fixed: &HashMap<String, (Value,
     let mut values = HashMap::new();
     let mut offsets = Vec::with_capacity(items.len());
     let mut uniq: HashMap<String, HashSet<String>> = HashMap::new();
+    let mut lenrest: Option<(usize, String)> = None;
     for it in items {
         offsets.push(bytes.len());
         match it["k"].as_str().expect("item kind") {
@@ -213,8 +357,44 @@ pub fn encode(rng: &mut StdRng, items: &[Value], fixed: &HashMap<String, (Value,
                 bytes.extend(b);
                 values.insert(name, v);
             }
+            "ref" => {
+                // the text of an already drawn ustr field again (a repeated key)
+                let v = values[it["f"].as_str().unwrap()].as_str().unwrap().to_string();
+                let chars: Vec<char> = v.chars().collect();
+                let latin = chars.iter().all(|c| (*c as u32) < 0x100);
+                let atoms = vec!["ch".to_string(); chars.len()];
+                bytes.extend(ustr_encode(rng, if latin { "latin1" } else { "ucs2" }, &atoms, &chars));
+            }
+            "ustrlit" => {
+                let chars: Vec<char> = it["s"].as_str().unwrap().chars().collect();
+                let atoms = vec!["ch".to_string(); chars.len()];
+                let enc = if rng.gen_bool(0.7) { "latin1" } else { "ucs2" };
+                bytes.extend(ustr_encode(rng, enc, &atoms, &chars));
+            }
+            "lenrest" => {
+                lenrest = Some((bytes.len(), it["ty"].as_str().unwrap().to_string()));
+                bytes.extend([0, 0]);
+            }
+            "j" => {
+                let ptr = it["ptr"].as_str().unwrap().to_string();
+                let v = match it["ty"].as_str().unwrap() {
+                    "jstr" => json!(random_string(rng, 0, 30)),
+                    "ji32" => json!(boundary_u64(rng, u32::MAX as u64) as u32 as i32),
+                    "ju32" => json!(boundary_u64(rng, u32::MAX as u64) as u32),
+                    "jbool" => json!(rng.gen_bool(0.5)),
+                    "jemptylist" => json!([]),
+                    "jconst" => it["v"].clone(),
+                    t => panic!("json member type {t}"),
+                };
+                values.insert(ptr, v);
+            }
             k => panic!("unknown item kind {k}"),
         }
+    }
+    if let Some((at, ty)) = lenrest {
+        assert_eq!(ty, "u16be");
+        let n = (bytes.len() - at - 2) as u16;
+        bytes[at .. at + 2].copy_from_slice(&n.to_be_bytes());
     }
     Encoded {
         bytes,
@@ -337,6 +517,40 @@ pub fn expected(expect: &[Value], values: &HashMap<String, Value>) -> Value {
                 }
                 slot.as_object_mut().unwrap().insert(key, v);
             }
+            "truthy" => {
+                let t = src().as_str().unwrap().to_lowercase();
+                let b = match t.as_str() {
+                    "true" => true,
+                    "false" => false,
+                    n => n.parse::<u64>().expect("truthy source") != 0,
+                };
+                set_path(&mut root, path, json!(b));
+            }
+            "is1" => set_path(&mut root, path, json!(src().as_str() == Some("1"))),
+            "jsontext" => {
+                // resolved by the comparator: the observed text must parse to this value (absent = null)
+                let name = e["src"].as_str().unwrap();
+                let v = json_subtree(values, name);
+                set_path(&mut root, path, json!({"__jsontext": v}));
+            }
+            "listentry" => {
+                let key = values[e["key"].as_str().unwrap()].as_str().expect("map key is text").to_string();
+                let v = src();
+                let slot = get_path_mut(&mut root, path);
+                if !slot.is_object() {
+                    *slot = Value::Object(Map::new());
+                }
+                let list = slot.as_object_mut().unwrap().entry(key).or_insert_with(|| json!([]));
+                list.as_array_mut().unwrap().push(v);
+            }
+            "append" => {
+                let v = src();
+                let slot = get_path_mut(&mut root, path);
+                if !slot.is_array() {
+                    *slot = json!([]);
+                }
+                slot.as_array_mut().unwrap().push(v);
+            }
             other => panic!("unknown expect transform {other}"),
         }
     }
@@ -344,7 +558,33 @@ pub fn expected(expect: &[Value], values: &HashMap<String, Value>) -> Value {
 }
 
 /// First difference between expected and observed JSON (None = equal). Numbers compare by value.
+/// Build the JSON value rooted at JSON pointer `root` from the drawn pointer -> value map.
+pub fn json_subtree(values: &HashMap<String, Value>, root: &str) -> Value {
+    let mut out = Value::Null;
+    let mut keys: Vec<&String> = values.keys().filter(|k| k.starts_with('/')).collect();
+    keys.sort();
+    for k in keys {
+        if k == root {
+            return values[k].clone();
+        }
+        if let Some(rest) = k.strip_prefix(root).filter(|r| r.starts_with('/')) {
+            let path: Vec<Value> = rest[1 ..]
+                .split('/')
+                .map(|seg| seg.parse::<u64>().map_or_else(|_| json!(seg), |n| json!(n)))
+                .collect();
+            set_path(&mut out, &path, values[k].clone());
+        }
+    }
+    out
+}
+
 pub fn diff(path: &str, want: &Value, got: &Value) -> Option<String> {
+    if let Some(inner) = want.get("__jsontext") {
+        return match got.as_str().map(serde_json::from_str::<Value>) {
+            Some(Ok(v)) => diff(path, inner, &v),
+            _ => Some(format!("{path}: expected JSON text of {inner}, observed {got}")),
+        };
+    }
     match (want, got) {
         (Value::Object(a), Value::Object(b)) => {
             for (k, va) in a {
@@ -442,5 +682,30 @@ impl LayoutSet {
         let c = self.of(proto, sec);
         assert!(!c.is_empty(), "no layout for {proto}/{sec}");
         c[rng.gen_range(0 .. c.len())]
+    }
+}
+
+/// Sort the arrays at the given paths (lists the protocol gives no order to, D1) in both values.
+pub fn normalise_unordered(v: &mut Value, paths: &[Value]) {
+    fn go(cur: &mut Value, segs: &[Value]) {
+        match segs.split_first() {
+            None => {
+                if let Some(a) = cur.as_array_mut() {
+                    a.sort_by_key(|x| x.to_string());
+                }
+            }
+            Some((seg, rest)) => {
+                let next = match seg.as_str() {
+                    Some(k) => cur.get_mut(k),
+                    None => cur.get_mut(seg.as_u64().unwrap() as usize),
+                };
+                if let Some(n) = next {
+                    go(n, rest);
+                }
+            }
+        }
+    }
+    for p in paths {
+        go(v, p.as_array().unwrap());
     }
 }
